@@ -700,8 +700,38 @@ def gadget_grammars(seed, n):
         else:
             g = G.G("S: Ta X Tc | A Tc; A: Ta Tb Tb {%s} | Ta Tb {%s}; X: Tb Tb {%s} | Tb {%s}" % (
                 m(p1), m(p2), m(rng.choice(prios)), m(rng.choice(prios))))
+        # rule-level meta-data on top (inherited by every production that does not give the
+        # same piece itself): drawn from its own generator so that the gadgets stay the same
+        r2 = random.Random(seed * 77 + i)
+        for name, _alts in g["rules"]:
+            if r2.random() < 0.4:
+                rm = m(r2.choice(assoc), r2.choice(prios), r2.choice(["", "", "nops"]), r2.choice(["", "", "nopse"]))
+                if rm:
+                    g.setdefault("rule_meta", {})[name] = rm
         out.append(("gad:%d:%d" % (seed, i), g, {"meta", "gadget"}))
     return out
+
+
+def meta_fields(text):
+    """'left, 5, nops' -> the four pieces of disambiguation meta-data as Builder.Own reads them."""
+    d = {"prio": -1, "assoc": "", "nops": False, "nopse": False, "kind": ""}
+    for part in (text or "").split(","):
+        part = part.strip()
+        if part in ("left", "reduce"):
+            d["assoc"] = "left"
+        elif part in ("right", "shift"):
+            d["assoc"] = "right"
+        elif part.isdigit():
+            d["prio"] = int(part)
+        elif part in ("nops", "nopse"):
+            d[part] = True
+    return d
+
+
+def written_meta(g):
+    """Per alternative: [rule name, alternative number, rule-level meta-data, its own meta-data]."""
+    return [[name, k + 1, meta_fields(g.get("rule_meta", {}).get(name)), meta_fields(a.get("meta"))]
+            for name, alts in g["rules"] for k, a in enumerate(alts)]
 
 
 def stage_resolve(work, tier, seed):
@@ -728,7 +758,7 @@ def stage_resolve(work, tier, seed):
                                       # every other LR case: parser_algo(LR) called last, after the
                                       # preferences (the order rcomp uses); it changes nothing else
                                       **({"lr_last": True} if algo == "lr" and (n + ps + pse) % 2 == 0 else {})),
-                          "meta": {"nodis": False, "plain": False}})
+                          "meta": {"nodis": False, "plain": False, "pm": written_meta(g)}})
     pres = run.run_vdrive(work, "resolve", cases)
     rs = table_shards(work, "resolve", pres, "full", module="CheckResolve")
     verdicts = [v for r in rs for v in r["verdicts"]]
@@ -1245,6 +1275,7 @@ def stage_pipeline(work, tier, seed):
     with ThreadPoolExecutor(max_workers=run.NCPU) as ex:
         recs += list(ex.map(cli, cli_ids))
     recs += path_cases(work, rc)
+    recs += [{k: v for k, v in r.items() if k not in ("files_at", "job")} for r in tree_cases(work, rc, "pipeline")]
     rp = work.path("pipeline", "recs.ndjson")
     with open(rp, "w") as f:
         for r in recs:
@@ -1263,7 +1294,7 @@ def stage_pipeline(work, tier, seed):
             "mc_pipeline_ok": "No error has been found" in mc["out"],
             "ncases": len(recs), "ntraces": len(verdicts), "outcomes": {"%s/%s" % k: v for k, v in cls.items()},
             "divergences": ["Paths model differs: %s %s" % (v["id"], v["where"]) for v in verdicts if v.get("where")][:20],
-            "npath": sum(1 for x in recs if "path" in x),
+            "npath": sum(1 for x in recs if "path" in x or "tree" in x),
             "samples": [dict(id=v["id"], via=v["via"], outcome=v["outcome"], cls=v["class"]) for v in verdicts[:200:45]]}
 
 
@@ -1358,6 +1389,93 @@ def path_cases(work, rc):
         return list(ex.map(one, jobs))
 
 
+TREE_FILES = [["top.rustemo"], ["a", "g.rustemo"], ["a", "deep", "er", "g2.rustemo"], ["skipme", "g.rustemo"],
+              ["b", "skipmenot", "g.rustemo"], ["b", "zz9.rustemo"], ["b", "g.rustemo"], ["c", "notes.txt"],
+              ["c", "g.rustemo.bak"]]
+
+
+def tree_cases(work, rc, sub):
+    """Directory processing (Settings::process_dir / rcomp <dir>) over one tree of grammars with
+    nested directories, exclusion patterns (substring of the path text), a root whose own name
+    matches a pattern, with and without an output root, root given absolute or relative."""
+    import subprocess
+    from concurrent.futures import ThreadPoolExecutor
+    base = os.path.dirname(work.path(sub, "trees", "x"))
+    jobs = []
+    for rootname in ("tree", "skipme_root"):
+        for excl in ([], ["skipme"], ["zz9"], ["skipme", "zz9"], ["eep"]):
+            for out in ("none", "abs", "rel"):
+                for rootform in ("abs", "rel"):
+                    for via in ("api", "cli"):
+                        jobs.append((rootname, excl, out, rootform, via))
+
+    def one(job):
+        rootname, excl, out, rootform, via = job
+        cid = "tree:%s/excl=%s/out=%s/root=%s|%s" % (rootname, "+".join(excl) or "-", out, rootform, via)
+        # the exclusion test looks at the whole path text: the case directory must not contain a pattern
+        B = os.path.join(base, "t%d" % jobs.index(job))
+        root = os.path.join(B, rootname)
+        for f in TREE_FILES:
+            os.makedirs(os.path.join(root, *f[:-1]), exist_ok=True)
+            with open(os.path.join(root, *f), "w") as fh:
+                fh.write(BASE_DOC)
+        rootarg = root if rootform == "abs" else rootname
+        outarg = {"none": None, "abs": os.path.join(B, "out"), "rel": "out"}[out]
+        env = run.clean_env()
+        msg = ""
+        try:
+            if via == "api":
+                rq = os.path.join(B, "req.json")
+                req = {"root": rootarg, "exclude": excl, "settings": {"builder": "generic", "force": True},
+                       "result_path": os.path.join(B, "res.json")}
+                if outarg is not None:
+                    req["out_dir"] = outarg
+                json.dump(req, open(rq, "w"))
+                subprocess.run([run.vhist_bin(), "api-dir", rq], capture_output=True, text=True, env=env, cwd=B, timeout=120)
+                res = json.load(open(os.path.join(B, "res.json"))) if os.path.exists(os.path.join(B, "res.json")) \
+                    else {"outcome": "crash", "msg": ""}
+                outcome, msg = res["outcome"], res.get("msg", "")[:200]
+            else:
+                args = [rc, rootarg, "-b", "generic"]
+                for e in excl:
+                    args += ["--exclude", e]
+                if outarg is not None:
+                    args += ["-o", outarg, "-a", outarg]
+                r = subprocess.run(args, capture_output=True, text=True, env=env, cwd=B, timeout=120)
+                o = r.stdout + r.stderr
+                outcome = "ok" if r.returncode == 0 and "not generated" not in o else \
+                    ("err" if r.returncode == 0 else "panic")
+                import re as _re
+                mm = _re.search(r"panicked at ([^\n]*)\n([^\n]*)", o)
+                msg = (mm.group(1) + " " + mm.group(2))[:200] if mm else o[-200:] if outcome != "ok" else ""
+        except subprocess.TimeoutExpired:
+            outcome = "hang"
+        found, files_at = [], {}
+        for dp, dn, fn in os.walk(B):
+            rs_ = sorted(f for f in fn if f.endswith(".rs"))
+            if rs_:
+                rel = os.path.relpath(dp, B)
+                found.append([] if rel == "." else rel.split(os.sep))
+                for f in rs_:
+                    files_at[os.path.join(rel, f)] = digest_bytes(open(os.path.join(dp, f), "rb").read())
+        gram = [f for f in TREE_FILES if f[-1].endswith(".rustemo")]
+        hit = lambda name: any(e in name for e in excl)
+        tree = {"root": {"abs": rootform == "abs", "c": [rootname]},
+                "out": PATH_NONE if out == "none" else {"abs": out == "abs", "c": ["out"]},
+                "files": [[{"n": c, "x": hit(c)} for c in f] for f in gram],
+                "rootx": hit(root if rootform == "abs" else rootname)}
+        return {"id": cid, "via": via, "known": False, "doc": FINE_DOC, "algo": "lr", "lexer": "default",
+                "outcome": outcome, "class": "", "msg": msg, "tree": tree, "found": sorted(found),
+                "files_at": files_at, "job": [rootname, excl, out, rootform]}
+    with ThreadPoolExecutor(max_workers=run.NCPU) as ex:
+        return list(ex.map(one, jobs))
+
+
+def digest_bytes(b):
+    import hashlib
+    return hashlib.sha256(b).hexdigest()[:16]
+
+
 REGEN_GRAMMARS = {
     "calc": "E: left=E '+' right=E {Add, 1, left} | left=E '*' right=E {Mul, 2, left} | Num;\nterminals\nNum: /\\d+/;\nPlus: '+';\nMul: '*';\n",
     "list": "S: Item+ Te;\nItem: Num | Name;\nterminals\nNum: /\\d+/;\nName: /[a-z]+/;\nTe: 'e';\n",
@@ -1393,6 +1511,7 @@ def stage_regen(work, tier, seed):
     """C18: histories of user edits and regenerations on real actions files."""
     import itertools
     rng = random.Random(seed * 13 + 1)
+    rcomp = run.rcomp_bin()
     base = work.path("regen", "h", "x")
     base = os.path.dirname(base)
     # 1. fresh generation per grammar to learn the item list
@@ -1470,7 +1589,11 @@ def stage_regen(work, tier, seed):
             hists.append(steps)
         for steps in hists:
             n += 1
-            reqs.append({"id": "%s:%d" % (g, n), "dir": os.path.join(base, "h%d" % n), "grammar": text,
+            # who regenerates and where the actions live: API with the actions in the source tree,
+            # API with a separate actions directory (rcomp's call order), plain rcomp, rcomp -o/-a
+            place = ("tree", "adir", "cli", "cli-a")[n % 4]
+            reqs.append({"id": "%s:%d|%s" % (g, n, place), "dir": os.path.join(base, "h%d" % n), "grammar": text,
+                         "place": place, "rcomp": rcomp,
                          "settings": settings_of[g], "steps": [{"op": "generate", "force": True}] + steps})
     res = run_histories(work, "regen", reqs)
     hp = work.path("regen", "hists.ndjson")
@@ -1731,6 +1854,19 @@ def stage_determinism(work, tier, seed):
             od = os.path.join(outroot, sub)
             events.append({"id": "%s/dir%d" % (g, layout), "g": g, "given": DET_DEFAULT, "via": "dir", "proc": layout,
                            "out": digest_dir(od) if os.path.isdir(od) else "err"})
+    # directory processing with exclusions, nested directories, in-source output: what the
+    # library API writes for each file of the tree is what rcomp writes for it
+    for r in tree_cases(work, rc, "det"):
+        rootname, excl, out, rootform = r["job"]
+        for f in TREE_FILES:
+            if not f[-1].endswith(".rustemo"):
+                continue
+            place = ([rootname] if out == "none" else ["out"]) + f[:-1] + [f[-1][:-len(".rustemo")] + ".rs"]
+            key = os.path.join(*place)
+            events.append({"id": "%s:%s" % (r["id"], "/".join(f)),
+                           "g": "tree:%s/%s/%s/%s:%s" % (rootname, "+".join(excl) or "-", out, rootform, "/".join(f)),
+                           "given": DET_DEFAULT, "via": "dir-" + r["via"], "proc": 0,
+                           "out": r["files_at"].get(key, r["outcome"] if r["outcome"] != "ok" else "none")})
     # events of one grammar stay together; shards keep the quadratic comparison small
     byg = {}
     for e in events:
